@@ -261,3 +261,27 @@ package deps
 //@   ensures true
 //@ trusted func (b *strings.Builder) String() (s string)
 //@   ensures true
+//@
+//@ # ---- store query handler (C14): events announced on a resource, counted; client code behind callbacks
+//@ ghostvar qevn int
+//@ ghostvar qrst int
+//@ trusted func builtin.qhAdd(r res.Resource, v interface{}, idx int)
+//@   modifies ghost.qevn
+//@   ensures qevn == old(qevn) + 1
+//@ trusted func builtin.qhRemove(r res.Resource, idx int)
+//@   modifies ghost.qevn
+//@   ensures qevn == old(qevn) + 1
+//@ trusted func builtin.qhChange(r res.Resource, props map[string]interface{})
+//@   modifies ghost.qevn
+//@   ensures qevn == old(qevn) + 1
+//@ trusted func (r res.Resource) ResetEvent()
+//@   modifies ghost.qrst
+//@   ensures qrst == old(qrst) + 1
+//@ trusted func (r res.Resource) ResourceName() (s string)
+//@   ensures true
+//@ trusted func (r res.Resource) PathParams() (m map[string]string)
+//@   ensures true
+//@ trusted func (qc store.QueryChange) Events(q url.Values) (evs []store.ResultEvent, reset bool, err error)
+//@   modifies alloc
+//@ trusted func (t store.QueryTransformer) TransformEvents(events []store.ResultEvent) (out []store.ResultEvent, err error)
+//@   modifies alloc
